@@ -57,6 +57,48 @@ def run(tier, seed, replay=None):
     cases = []
     tmp = tempfile.mkdtemp(prefix="verif_c12_")
     try:
+        # ---- a symbolic link to another source file of the same code base: scan analyses both directory entries, so check
+        #      through a directory checks both (seeded change C12-26: check results de-duplicated by resolved path)
+        for k in range(4 if tier == "quick" else 40):
+            root = os.path.realpath(os.path.join(tmp, f"sl{k}"))
+            os.makedirs(os.path.join(root, "sub"))
+            real, alias = [("real.py", "alias.py"), ("real.py", "zz_alias.py"), ("m.py", "sub/again.py"), ("sub/m.py", "first.py")][k % 4]
+            with open(os.path.join(root, real), "w") as f:
+                f.write("def big():\n" + "    x = 1\n" * (31 + k) + "\ndef small():\n    return 1\n")
+            os.symlink(os.path.relpath(os.path.join(root, real), os.path.dirname(os.path.join(root, alias))), os.path.join(root, alias))
+            Configuration.exclude = []
+            old = os.getcwd()
+            os.chdir(root)
+            try:
+                with contextlib.redirect_stdout(io.StringIO()):
+                    cb = Scanner.scan_path(Path("."))
+            finally:
+                os.chdir(old)
+            scanned = {p: [(m.unit_name, m.start.line, m.start.column, m.value, m.end.line, m.end.column) for m in e.measurements()] for p, e in cb.files.items()}
+            for way, args in (("root directory", ["."]), ("absolute root directory", [root])):
+                try:
+                    got, code = run_check(root, args)
+                except Exception as ex:
+                    chk.violation({"tree": [real, alias + " -> " + real], "way": way}, f"check ({way}) raised {type(ex).__name__}: {ex}")
+                    continue
+                chk.evaluations += 1
+                chk.count("way: " + way + ", tree with a linked file")
+                gd = dict(got)
+                for rel, ms in scanned.items():
+                    want = sorted([m for m in ms if m[3] > 30], key=lambda m: -m[3])
+                    if rel not in gd:
+                        chk.violation({"tree": [real, alias + " -> " + real], "file": rel, "way": way},
+                                      f"scan analyses {rel} (one of two directory entries for the same file) but check ({way}) skips it")
+                    elif gd[rel] != want:
+                        chk.violation({"tree": [real, alias + " -> " + real], "file": rel, "way": way},
+                                      f"check ({way}) lists {gd[rel]} for {rel}, scan measures {want} above 30 lines")
+                    else:
+                        chk.nontrivial.add(("link", k, rel, way))
+                for rel in gd:
+                    if rel not in scanned:
+                        chk.violation({"tree": [real, alias + " -> " + real], "file": rel, "way": way},
+                                      f"scan does not analyse {rel} but check ({way}) checks it")
+            shutil.rmtree(root, ignore_errors=True)
         for ci in range(90 if tier == "quick" else 2500):
             nodes = c11.gen_tree(rng)
             root = os.path.realpath(os.path.join(tmp, f"t{ci}"))
